@@ -579,6 +579,8 @@ def do_check(pid, plan, tier, seed, d, evid_path, t0):
             if rid in seen_runs:
                 continue
             seen_runs.add(rid)
+            if len(seen_runs) > 10:
+                continue      # enough replay files for one stage
             sl = sched_lines[rid - 1] if 0 < rid <= len(sched_lines) else None
             rp = save_replay(pid, g["name"], rid, sl, runs.get(rid, []), [b for b in bads if b[0] == rid])
             violations.append((g["name"], rid, prop, why, rp))
